@@ -90,7 +90,7 @@ func RunSchedule(w *World, ops []func(), choose func(enabled []int) int) (s *Sch
 			} else {
 				atGate[ev.op] = ev.method
 			}
-		case <-time.After(20 * time.Second):
+		case <-time.After(60 * time.Second):
 			return s, true
 		}
 	}
